@@ -130,7 +130,19 @@ def breakages(cfg):
 
 
 def to_doc(cfg):
-    return {"tasks": {t: {"command": ["true"]} for t in cfg["tasks"]}, "pipelines": cfg["pipelines"], "watchers": cfg["watchers"]}
+    # every task leaves a mark: running a pipeline runs the tasks of the pipelines it includes too
+    return {"tasks": {t: {"command": ['touch "$PROJ/ran.%s"' % t]} for t in cfg["tasks"]}, "pipelines": cfg["pipelines"], "watchers": cfg["watchers"]}
+
+
+def tasks_of(cfg, p, seen=()):
+    """the tasks a run of pipeline p executes: its task stages and, through its including stages, those of the included pipelines"""
+    out = set()
+    for st in cfg["pipelines"].get(p, []):
+        if st.get("task"):
+            out.add(st["task"])
+        elif st.get("pipeline", "") in cfg["pipelines"] and st.get("pipeline", "") not in seen:
+            out |= tasks_of(cfg, st.get("pipeline", ""), seen + (p,))
+    return out
 
 
 class Names:
@@ -239,7 +251,7 @@ def run(ctx):
     for c in accepted:
         for p in c["cfg"]["pipelines"]:
             rjobs.append({"id": len(rjobs), "files": {"cfg.yaml": json.dumps(to_doc(c["cfg"])), "a.txt": "x"}, "argv": ["-c", "cfg.yaml", "--raw", "run", "pipeline", p],
-                          "timeout": 10, "case": c["id"], "pipeline": p})
+                          "timeout": 10, "case": c["id"], "pipeline": p, "keepglob": "ran.*"})
             rjobs.append({"id": len(rjobs), "files": {"cfg.yaml": json.dumps(to_doc(c["cfg"])), "a.txt": "x"}, "argv": ["-c", "cfg.yaml", "graph", p],
                           "timeout": 10, "case": c["id"], "pipeline": p})
     rout = clilib.run_cli(ctx.workdir + "/run", rjobs, timeout=10)
@@ -253,6 +265,9 @@ def run(ctx):
         elif clilib.crashed(r) or r["rc"] != 0:
             res.violations.append({"class": None, "what": "`%s` of an accepted configuration aborted" % " ".join(j["argv"][2:]), "case": c,
                                    "observed": {"pipeline": j["pipeline"], "rc": r["rc"], "err": (r.get("err") or "")[-500:]}})
+        elif "run" in j["argv"] and {fn[4:] for fn in r["files"]} != tasks_of(cases[j["case"]]["cfg"], j["pipeline"]):
+            res.violations.append({"class": None, "what": "`run pipeline %s` of an accepted configuration did not run exactly the tasks of its stages and of the pipelines it includes" % j["pipeline"], "case": c,
+                                   "observed": {"ran": sorted(fn[4:] for fn in r["files"]), "expected": sorted(tasks_of(cases[j["case"]]["cfg"], j["pipeline"]))}})
         elif "graph" in j["argv"]:
             # the drawing shows every declared dependency of the pipeline's own stages (also those of a stage that includes a pipeline)
             txt = r.get("out") or ""
